@@ -331,6 +331,50 @@ def escaping_symlink(chk: Check, sc: Scratch) -> None:
         site.close()
 
 
+def odd_member_names(chk: Check, sc: Scratch) -> None:
+    """Member names as some archivers write them -- absolute ('/docs/a.txt'), with an empty component
+    ('pub//notes/n.txt') -- name what every extractor makes of them: docs/a.txt, pub/notes/n.txt."""
+    import io
+    import zipfile
+    members = [("/top.txt", "top\n"), ("/docs/abs.txt", "abs\n"), ("docs/rel.txt", "rel\n"), ("pub//notes/n.txt", "n\n"),
+               ("pub/plain.txt", "p\n"), ("/deep/er/still/x.txt", "x\n"), ("a///b/c.txt", "c\n")]
+    bio = io.BytesIO()
+    extracted = Tree()
+    with zipfile.ZipFile(bio, "w") as z:
+        for name, data in members:
+            zi = zipfile.ZipInfo(name, (2020, 9, 13, 12, 26, 40))
+            zi.external_attr = 0o100644 << 16
+            z.writestr(zi, data)
+            extracted.file("/".join(p for p in name.split("/") if p), data)
+    root = sc.sub("odd")
+    t = Tree()
+    t.subtree(ARCH, extracted)
+    t.file(ARCH + b".zip", bio.getvalue())
+    t.materialize(root)
+    site = driver.Site(root, handlers=driver.HANDLERS_FULL)
+    try:
+        sels = [b""] + sorted({b"/" + p for p in extracted.nodes}) + [b"/docs/nope", b"/pub/notes/nope"]
+        for sel in sels:
+            for view in ("gopher", "gopherp$", "http", "gemini"):
+                a_req, tls = reqs.render(view, b"/" + ARCH + sel)
+                z_req, _ = reqs.render(view, b"/" + ARCH + b".zip" + sel)
+                driver.clean_server_files(root)
+                ra, rz = site.request(a_req, tls=tls), site.request(z_req, tls=tls)
+                chk.count("odd_member_name_pairs")
+                if rz.escaped or [e for e in rz.exceptions() if not validate.is_io_error_name(e)]:
+                    chk.witness("C16/zip-request-crashed:%s" % (rz.exceptions() or ["?"])[0],
+                                {"selector": sel, "view": view, "members": [m for m, _ in members], "ziplog": rz.log[:3], "escaped": rz.escaped[:1]})
+                    return
+                if norm(ra.data) != norm(rz.data):
+                    chk.witness("C16/differs:odd-member-name:%s" % reqs.VIEWS[view][0],
+                                {"selector": sel, "view": view, "members": [m for m, _ in members], "disk": norm(ra.data)[:300],
+                                 "zip": norm(rz.data)[:300], "ziplog": rz.log[:3]})
+                    return
+                chk.case(("odd-member-name", sel, view), None)
+    finally:
+        site.close()
+
+
 def main() -> int:
     chk = Check("C16", "exploration")
     quick = chk.tier == "quick"
@@ -344,6 +388,7 @@ def main() -> int:
                 real_file_only(chk, sc)
                 nested_cache_lookalike(chk, sc)
                 escaping_symlink(chk, sc)
+                odd_member_names(chk, sc)
     return chk.finish(
         rule="case = (selector, protocol view): the reply for /T.zip/<sel> must equal the reply for /T/<sel> (the same "
              "tree extracted, symlink members mirrored as symlinks) after replacing the prefix and dropping "
